@@ -35,8 +35,8 @@ from jsonargparse import ActionConfigFile, ActionParser, ActionYesNo, ArgumentPa
 from jsonargparse.typing import Path_fr, PositiveInt
 
 PER_CLASS = 3
-LIMIT = 20       # seconds per call, thorough tier
-QUICK_LIMIT = 6  # seconds per call, quick tier (an ordinary call takes < 0.5 s)
+LIMIT = 10       # CPU seconds per call, thorough tier
+QUICK_LIMIT = 4  # CPU seconds per call, quick tier (an ordinary call takes < 0.3 s of CPU)
 
 
 # ------------------------------------------------------------------ parser shapes: build(eoe) and the known option names with a type label
@@ -381,7 +381,7 @@ def wants_exit0(argv):
 def verdict(eoe, r, argv):
     """The contract table.  Returns (kind, what, tag) for a violation, or (None, outcome class, '')."""
     if r["kind"] == "timeout":
-        return "timeout", "no result within the time limit (20 s thorough / 6 s quick; an ordinary call takes < 0.5 s)", "Timeout"
+        return "timeout", "no result within the CPU time limit (10 s thorough / 4 s quick; an ordinary call takes < 0.3 s)", "Timeout"
     if r["kind"] == "ok":
         if not isinstance(r["value"], Namespace):
             return "notnamespace", f"returned {type(r['value']).__name__}", type(r["value"]).__name__
@@ -453,20 +453,24 @@ class Ctx:
             return self.shape == "flat" and where == "parse_string"
         return (self.shape == "flat" and where != "object") or where in ("parse_string", "object-first")
 
-    def values(self, name, label):
+    def values(self, name, label, part):
+        """Which values an option gets.  thorough: all of them.  quick: the complete loader-level lists on the 3 representative options of the
+        shape, the class/import-path list on the first class-like options (4 on argv, 1 in documents), a short list elsewhere; shorter in exit mode."""
         if self.thorough:
             return ALL_VALUES
-        return [v for v in self.values_quick(name, label) if v not in SELFREF or self.rep(name)]
-
-    def values_quick(self, name, label):
-        if self.eoe:
-            return QUICK_EXIT_VALUES
-        out = list(LOADER_VALUES) if self.rep(name) and self.shape not in ("omegaconf",) else list(QUICK_VALUES)
-        if any(t in label for t in CLASSY) and self.shape not in ("jsonnet", "omegaconf"):
-            out += [v for v in V_CLASS if v not in out]
-        if any(t in label for t in ("cfg", "Path", "Any", "inner")):
-            out += [v for v in V_PATHS if v not in out]
-        return out
+        rep = self.rep(name)
+        classy = [n for n, l in self.allnames if n != "cfg" and any(t in l for t in CLASSY)]
+        if self.shape in ("jsonnet", "omegaconf"):
+            out = QUICK_VALUES + V_TAGS[:12] + V_BROKEN[:12] + V_PATHS[:4] if rep and not self.eoe else QUICK_VALUES[:6]
+        elif self.eoe:
+            out = QUICK_EXIT_VALUES if rep or name in classy[:1] else QUICK_VALUES[:6]
+        else:
+            out = list(LOADER_VALUES) if rep else list(QUICK_VALUES) if part == "argv" else QUICK_VALUES[:10]
+            if name in classy[: 4 if part == "argv" else 1]:
+                out += [v for v in V_CLASS if v not in out]
+            if part == "argv" and any(t in label for t in ("cfg", "Path", "Any", "inner")):
+                out += [v for v in V_PATHS if v not in out]
+        return [v for v in out if v not in SELFREF or rep]
 
     # -- running one input
     def parser(self):
@@ -539,7 +543,7 @@ def leaf(name):
 def do_argv(c):
     """known option x value (form --name=value); a second form (--name value) for a sub-list; the hand-written sequences."""
     for name, label in c.names:
-        for v in c.values(name, label):
+        for v in c.values(name, label, "argv"):
             if not c.selfref_ok(v, "argv"):
                 continue
             rv = c.files.sub(v)
@@ -552,10 +556,12 @@ def do_argv(c):
 
 
 def do_argv_malformed(c):
-    values = THOROUGH_MALFORMED_VALUES if c.thorough else QUICK_MALFORMED_VALUES[:3] if c.eoe else QUICK_MALFORMED_VALUES
-    names = c.names if c.thorough else [(n, l) for n, l in c.names if (n, l) in c.allnames[:5]]
+    values = THOROUGH_MALFORMED_VALUES if c.thorough else QUICK_MALFORMED_VALUES[2:3] if c.eoe else QUICK_MALFORMED_VALUES
+    names = c.names if c.thorough else [(n, l) for n, l in c.names if (n, l) in c.allnames[:3]]
+    if not c.thorough and c.shape in ("jsonnet", "omegaconf"):
+        names = [(n, l) for n, l in c.names if n == "di"]
     if c.shape == "subcommands":
-        names = [(n, l) for n, l in c.names if n in ("cfg", "v", "fit.lr", "fit.model", "fit.b.q")]
+        names = [(n, l) for n, l in c.names if n in (("cfg", "v", "fit.lr", "fit.model", "fit.b.q") if c.thorough else ("cfg", "fit.lr", "fit.model"))]
     for name, label in names:
         for variant in NAME_VARIANTS[1:]:
             opt = real_name(variant, leaf(name))
@@ -624,7 +630,7 @@ def do_text(c):
             c.call("parse_args", "default_config_files:path:" + short(v), {"default_config_files": [rv], "argv": []},
                    lambda p: build(eoe, default_config_files=[rv]).parse_args([]), own_parser=True)
     for name, label in c.names:
-        for v in c.values(name, label):
+        for v in c.values(name, label, "text"):
             if not c.thorough and v in V_PATHS:
                 continue
             rv = files.sub(v)
@@ -662,6 +668,8 @@ def do_object(c):
                 continue
             if not c.thorough and vname not in QUICK_PYVALS and (eoe or not (c.rep(name) or any(t in label for t in CLASSY))):
                 continue
+            if not c.thorough and (vname.startswith(("deep-", "selfref-list")) and not c.rep(name) or c.shape in ("jsonnet", "omegaconf") and vname not in QUICK_PYVALS):
+                continue
             for style in ("nested", "dotted"):
                 if style == "dotted" and "." not in name:
                     continue
@@ -680,6 +688,8 @@ def do_object(c):
             if "K" not in kt:
                 continue
             key = kt.replace("K", name)
+            if not c.thorough and (eoe or not c.rep(name)) and kt not in ("K.", "K..x", "K.x", "K+"):
+                continue
             for vname, mk in (few if c.thorough else few[1:4:2] if not eoe else few[1:2]):
                 c.call("parse_object", f"key:{kt.replace('K', '<' + label + '>')}={vname}", {"cfg_obj": f"{{{key!r}: {vname}}}"}, lambda p: p.parse_object({key: mk()}),
                        trig=f"key:{kt}={vname}")
